@@ -14,6 +14,7 @@
  *  D3  the D1 strings handed NUL-terminated to SCPI_Parse.
  *  D4  every history of <= 4 messages over {undefined headers of length 1..6, SYST:ERR?, *CLS, two undefined units} on one
  *      context (static-heap build: info heap of every size 5..12).
+ *  D6  "A <token> NL" for every token length 1..400 of 10 token shapes (long numbers, mnemonics, strings, blocks, lists).
  *  D5  "A " + every string of length <= 5 over 11 token-forming bytes (blocks, strings, expressions, lists) in exactly
  *      fitting buffers, whole and one byte per call.
  * Oracle: sanitizer reports, watchdog, "SCPI_Input returned and buffer.position < buffer.length".
@@ -284,6 +285,48 @@ int main(int argc, char ** argv) {
                 for (i = len - 1; i >= 0; i--) { if (++idx[i] < 11) { s[i] = S5[idx[i]]; break; } idx[i] = 0; s[i] = S5[0]; }
                 if (i < 0) break;
             }
+        }
+    }
+    /* ---- D6: long tokens: "A <token> NL" for every token length 1..400 of 10 token shapes (digits, digits with blank
+     *      exponent, fraction, mnemonic, quoted string, block, expression list, nondecimal, suffix, comma list), omnivore and
+     *      typed readers, in an exactly fitting buffer ---- */
+    {
+        int n, shape, m;
+        for (n = 1; n <= 400; n++) for (shape = 0; shape < 10; shape++) {
+            unsigned char * msg;
+            size_t ml = 0; int k;
+            if (!MC_CASE()) continue;
+            msg = (unsigned char *) malloc((size_t) n * 2 + 32);
+            msg[ml++] = 'A'; msg[ml++] = ' ';
+            switch (shape) {
+                case 0: for (k = 0; k < n; k++) msg[ml++] = (unsigned char) ('0' + (k * 7 + 1) % 10); break;
+                case 1: for (k = 0; k < n; k++) msg[ml++] = (unsigned char) ('0' + (k * 3 + 9) % 10); memcpy(msg + ml, " E -5", 5); ml += 5; break;
+                case 2: msg[ml++] = '-'; msg[ml++] = '.'; for (k = 0; k < n; k++) msg[ml++] = (unsigned char) ('0' + k % 10); memcpy(msg + ml, "e+3 V", 5); ml += 5; break;
+                case 3: for (k = 0; k < n; k++) msg[ml++] = (unsigned char) (k == 0 ? 'M' : k % 11 == 5 ? '_' : k % 11 == 7 ? '3' : 'a' + k % 26); break;
+                case 4: msg[ml++] = '"'; for (k = 0; k < n; k++) { msg[ml++] = (unsigned char) (k % 13 == 3 ? '"' : 'a' + k % 26); if (k % 13 == 3) msg[ml++] = '"'; } msg[ml++] = '"'; break;
+                case 5: ml += (size_t) sprintf((char *) msg + ml, "#3%03d", n % 1000); for (k = 0; k < n; k++) msg[ml++] = (unsigned char) (k % 5 == 0 ? '\n' : k); break;
+                case 6: msg[ml++] = '('; msg[ml++] = '@'; for (k = 0; k < n; k++) msg[ml++] = (unsigned char) (k % 4 == 0 ? '1' : k % 4 == 1 ? '!' : k % 4 == 2 ? '2' : ','); msg[ml++] = ')'; break;
+                case 7: msg[ml++] = '#'; msg[ml++] = (unsigned char) (n % 3 == 0 ? 'H' : n % 3 == 1 ? 'q' : 'B'); for (k = 0; k < n; k++) msg[ml++] = (unsigned char) ('0' + (k & 1)); break;
+                case 8: msg[ml++] = '1'; msg[ml++] = ' '; for (k = 0; k < n; k++) msg[ml++] = (unsigned char) (k % 6 == 5 ? '/' : 'A' + k % 26); break;
+                default: for (k = 0; k < n; k++) msg[ml++] = (unsigned char) (k & 1 ? ',' : '5'); break;
+            }
+            msg[ml++] = '\n';
+            mc_case_tag = "D6-long-token"; mc_case_i[0] = n; mc_case_i[1] = shape; mc_case_s[0] = msg; mc_case_n[0] = ml < 200 ? ml : 200;
+            h0 = n_handler;
+            for (m = 0; m <= 18; m++) {
+                char * ib;
+                if (m > 0 && m != 1 && m != 5 && m != 6 && m != 9 && m != 10 && m != 13 && m != 16 && m != 17) continue;
+                ib = (char *) malloc(ml + 1);
+                typed_mode = m; mc_case_i[2] = m;
+                fresh(ib, ml + 1); feed(msg, (int) ml);
+                SCPI_ErrorClear(&ctx);
+                ASAN_UNPOISON_MEMORY_REGION(ib, ml + 1);
+                free(ib);
+                fresh(ibufs[8], 8);
+            }
+            typed_mode = 0;
+            if (n_handler != h0) n_nontrivial++;
+            free(msg);
         }
     }
 #if USE_DEVICE_DEPENDENT_ERROR_INFORMATION
